@@ -32,10 +32,15 @@ TP_ID = 9000
 
 
 def req_id(data: bytes) -> int:
-    if len(data) >= 3 and data[0] == 0x22 and data[1] == 0x10:
-        return data[2]
+    """identity of a request on the wire; replies carry the same identity (reply_id) so that a reply handed to another
+    caller is recognisable.  Also total over requests the harness does not send itself (a change to gallia may send a
+    session read or a session change through the client): service id + first parameter byte / data identifier."""
+    if len(data) >= 3 and data[0] == 0x22:
+        return data[2] if data[1] == 0x10 else 0x10000 + (data[1] << 8) + data[2]
     if len(data) >= 1 and data[0] == 0x3E:
         return TP_ID
+    if len(data) >= 1:
+        return 0x20000 + (data[0] << 8) + (data[1] & 0x7F if len(data) > 1 else 0)
     return -2
 
 
@@ -44,14 +49,18 @@ def reply_for(data: bytes) -> bytes:
         return bytes([0x62, data[1], data[2], 0xAA])
     if data[0] == 0x3E:
         return bytes([0x7E, data[1] & 0x7F])
+    if len(data) > 1:
+        return bytes([data[0] + 0x40, data[1] & 0x7F])
     return bytes([data[0] + 0x40])
 
 
 def reply_id(pdu: bytes) -> int:
-    if len(pdu) >= 3 and pdu[0] == 0x62 and pdu[1] == 0x10:
-        return pdu[2]
+    if len(pdu) >= 3 and pdu[0] == 0x62:
+        return pdu[2] if pdu[1] == 0x10 else 0x10000 + (pdu[1] << 8) + pdu[2]
     if len(pdu) >= 1 and pdu[0] == 0x7E:
         return TP_ID
+    if len(pdu) >= 1 and pdu[0] != 0x7F and pdu[0] >= 0x40:
+        return 0x20000 + ((pdu[0] - 0x40) << 8) + (pdu[1] & 0x7F if len(pdu) > 1 else 0)
     return -3
 
 
